@@ -57,6 +57,21 @@ macro_rules! probe {
     }};
 }
 
+/// A body with a correct trailer. Bodies at least as long as the archived root are cut so that the root stays
+/// aligned: a checksum-valid body whose length breaks the root's alignment is the "structurally bogus but
+/// checksum-valid" class the property does not speak about (the unchecked cast is then a misaligned reference).
+macro_rules! probe_with_trailer {
+    ($ty:ty, $body:expr) => {{
+        let body: &[u8] = $body;
+        let root = std::mem::size_of::<rkyv::Archived<$ty>>();
+        let align = std::mem::align_of::<rkyv::Archived<$ty>>();
+        let len = if body.len() >= root { root + (body.len() - root) / align * align } else { body.len() };
+        let mut f = body[..len].to_vec();
+        f.extend_from_slice(&crc32fast::hash(&body[..len]).to_le_bytes());
+        probe!($ty, &f);
+    }};
+}
+
 fuzz_target!(|data: &[u8]| {
     let Some((mode, rest)) = data.split_first() else { return };
     match mode % 6 {
@@ -64,11 +79,9 @@ fuzz_target!(|data: &[u8]| {
         1 => probe!(Fixed, rest),
         2 => probe!(Status, rest),
         3 => {
-            let mut f = rest.to_vec();
-            f.extend_from_slice(&crc32fast::hash(rest).to_le_bytes());
-            probe!(Blob, &f);
-            probe!(Fixed, &f);
-            probe!(Status, &f);
+            probe_with_trailer!(Blob, rest);
+            probe_with_trailer!(Fixed, rest);
+            probe_with_trailer!(Status, rest);
         },
         _ => {
             let mut u = Unstructured::new(rest);
